@@ -217,7 +217,9 @@ func (c *ClusterNode) syncShards() error {
 		if err != nil {
 			return fmt.Errorf("failed to walk shard directory: %w", err)
 		}
-		if filepath.Base(path) == "sharddb.bbolt" {
+		// Only the database file of a shard, a user or a collection may be
+		// called like it and its directory is not a shard.
+		if filepath.Base(path) == "sharddb.bbolt" && !info.IsDir() {
 			shardPaths = append(shardPaths, path)
 		}
 		return nil
